@@ -1153,7 +1153,12 @@ macro_rules! dev_int_case {
         fn $name(rng: &mut Rng, acc: &mut Acc) {
             let shape = dev_shape(rng);
             let n: usize = shape.iter().product();
-            let lim: i64 = $lim;
+            // one case in seven uses values over half the range of the element type: differences still fit, their
+            // squares and sums usually do not - then only the maximum distance (and the counts) are judged
+            let tmax0: i128 = $tmax;
+            // (only for the fixed-width types up to 64 bits: the harness's own reference sums are 128-bit)
+            let wide = rng.chance(0.15) && tmax0 <= i64::MAX as i128;
+            let lim: i64 = if wide { (tmax0 / 2 - 1).min(1i128 << 62) as i64 } else { $lim };
             let ai: Vec<i64> = (0..n).map(|_| rng.range(-lim, lim)).collect();
             let mut bi: Vec<i64> = (0..n).map(|_| rng.range(-lim, lim)).collect();
             if rng.chance(0.3) {
@@ -1201,9 +1206,16 @@ macro_rules! dev_int_case {
             chk!("count_eq", va.count_eq(&vb), eq);
             chk!("count_neq", va.count_neq(&vb), n - eq);
             let tmax: i128 = $tmax;
-            if sq > tmax || l1 > tmax || diffs.iter().any(|d| d.abs() > tmax) {
-                // the exact distance is not representable in the element type: outside the property ("that do not overflow")
+            if diffs.iter().any(|d| d.abs() > tmax) {
+                // a difference is not representable in the element type: outside the property ("that do not overflow")
                 acc.count("int_overflow_case_skipped");
+                return;
+            }
+            if sq > tmax || l1 > tmax {
+                // sums of (squared) differences overflow, the largest difference does not
+                chk!("linf_dist", va.linf_dist(&vb).map(|x| toi(&x)), linf);
+                chk!("linf_dist(b,a)", vb.linf_dist(&va).map(|x| toi(&x)), linf);
+                acc.count("int_cases_only_linf_representable");
                 return;
             }
             chk!("sq_l2_dist", va.sq_l2_dist(&vb).map(|x| toi(&x)), sq);
